@@ -291,3 +291,38 @@ theorem iter_ids_stable (C : Consts) (sizes : Nat → Nat) (s s' : S) (hq : s.li
               exact (map_id_set cs idx c c' hget (writeTo_id { c with calls := rest, k := c.k + 1 } c' _ hwr)).trans hsc_ids
             · simp only [Option.some.injEq] at h; rw [← h] at hlen; exact absurd hlen (fun hl => hsr _ rfl hl)
 end Srv
+
+namespace Srv
+open Rx
+
+/-- a well-behaved connection whose bytes have all arrived and which still has an unconsumed call is ready: its
+    receive would complete if polled now (`Rx.poll_complete`) -/
+theorem ready_of_unserved (C : Consts) (hstep : 0 < C.step) (sizes : Nat → Nat) (x : S) (g : GInv C x) (b : Nat) (c : Conn)
+    (hb : x.conns[b]? = some c) (hg : c.good = true) (hfut : c.fut = []) (hk : c.k < c.frames.length) :
+    readyOf C sizes x.conns b = true := by
+  have inv := g.conns b c hb hg
+  have hsplit : c.frames = c.frames.take c.k ++ c.frames[c.k] :: c.frames.drop (c.k + 1) := by
+    rw [List.getElem_cons_drop]; exact (List.take_append_drop c.k c.frames).symm
+  have hrx := inv.rx
+  rw [hfut] at hrx
+  obtain ⟨s', e', hp, _, _⟩ := poll_complete C hstep sizes c.frames inv.st.ok inv.st.small c.rx c.net
+    (c.frames.take c.k) (c.frames[c.k]) (c.frames.drop (c.k + 1)) hsplit hrx
+  simp only [readyOf, hb, hp]
+  rfl
+
+/-- **A waiting call is not overtaken twice by the same client.** Connection `a` has just been served. Over any
+    stretch of consecutive iterations with an unchanged connection list, all states satisfying the server invariant
+    (every reachable state does: `run_inv`), if the client at position `b ≠ a` is well behaved, has delivered all its
+    bytes and still has an unanswered call at every scan, and is never the one served, then `a` is never served again:
+    `b`'s *complete call* - not an abstract readiness flag - has been waiting the whole time. -/
+theorem waiting_call_not_overtaken (C : Consts) (hstep : 0 < C.step) (sizes : Nat → Nat) (n a b : Nat) (hn : 0 < n)
+    (ha : a < n) (hb : b < n) (hab : b ≠ a) (s : S) (t : List S) (hrun : IsRun C sizes s t) (hlast : s.lastCall = some a)
+    (hall : ∀ x ∈ s :: t, x.listenQ = [] ∧ x.conns.length = n)
+    (hinv : ∀ x ∈ (s :: t).dropLast, GInv C x)
+    (hwait : ∀ x ∈ (s :: t).dropLast, ∃ c, x.conns[b]? = some c ∧ c.good = true ∧ c.fut = [] ∧ c.k < c.frames.length)
+    (hnb : ∀ x ∈ t, x.lastCall ≠ some b) : ∀ x ∈ t, x.lastCall ≠ some a := by
+  apply server_no_double_service C sizes n a b hn ha hb hab s t hrun hlast hall _ hnb
+  intro x hx
+  obtain ⟨c, h1, h2, h3, h4⟩ := hwait x hx
+  exact ready_of_unserved C hstep sizes x (hinv x hx) b c h1 h2 h3 h4
+end Srv
